@@ -10,6 +10,12 @@ claimed = {
  "C14": ("each of the 23 typed descriptors + unknown + user-defined: write == reference, declared lengths == emitted bytes for an arbitrary struct Length field, parse(reference) re-encodes to the reference; loop lengths; input-side skipping for any tag", "§3 C14"),
  "C15": ("BCD and duration conversions for all bit patterns; MJD <-> calendar date with exact floating-point semantics (SMT FP theory) on domain chunks against integer Gregorian arithmetic", "§3 C15"),
 }
+claimed.update({
+ "C01": ("Muxer output of bounded operation histories / single steps demultiplexed by the real Demuxer: one PES per WriteData with identical payload, stream id, PTS/DTS and first-packet adaptation field; PAT/PMT pair per emission", "§3 C04/C05/C17/C01"),
+ "C04": ("every byte the Muxer hands to its writer after each operation of a bounded history and of one inductive step from an arbitrary valid state: whole 188-byte packets consistent under an independent decoder, exact byte counts, nothing written by rejected calls", "§3 C04/C05/C17/C01"),
+ "C05": ("continuity counters of consecutive payload packets per PID across histories and across one inductive step (invariant: counter state == cc of the last packet actually written)", "§3 C04/C05/C17/C01"),
+ "C17": ("table emission positions (first, every period, before RAI on the PCR PID), PMT/PAT contents, version rule and automatic PID assignment, over histories and one inductive step", "§3 C04/C05/C17/C01"),
+})
 pending = {}
 na_reason = "no check is registered for this property at this commit (harness not built yet); it is not claimed"
 all_ids = ["C%02d" % i for i in range(1, 21)]
